@@ -322,27 +322,199 @@ Proof.
     rewrite Ek. apply (item_derives_tokens_prefix r1 r2 s Hc1 Hc Hout flat1 flat Hf1 Hf); exact Hdf.
 Qed.
 
+(** ** a successful generation stays successful after a renumbering when [types_equal] is
+    replaced by the oracle that judges everything equal (the permutation theorem holds for
+    arbitrary oracles, so this run can serve as the intermediate one) *)
+Definition teq_true : N -> N -> result bool := fun _ _ => Ok true.
+
+Lemma mapM_ok_each {A B} (f : A -> result B) l ys :
+  mapM f l = Ok ys -> forall x, In x l -> exists y, f x = Ok y.
+Proof.
+  revert ys. induction l as [|a l IH]; intros ys H x Hx; [destruct Hx|].
+  rewrite mapM_cons in H. apply bind_ok in H as (y & Hy & H). apply bind_ok in H as (ys' & Hys & _).
+  destruct Hx as [<-|Hx]; [eauto|eapply IH; eauto].
+Qed.
+
+Lemma flatten_go_ok dr rr : forall keys acc,
+  (forall root kr d, In (root, Some kr) keys -> kmap_get (dr_recursive dr) kr = Some d ->
+                     exists ids, collect_type_ids rr root = Ok ids) ->
+  exists acc', flatten_go dr rr keys acc = Ok acc'.
+Proof.
+  induction keys as [|[id [k|]] keys IH]; intros acc H; cbn [flatten_go].
+  - eauto.
+  - destruct (kmap_get (dr_recursive dr) k) as [d|] eqn:Ek.
+    + destruct (H id k d (or_introl eq_refl) Ek) as (ids & Hids). rewrite Hids. cbn [bind].
+      apply IH. intros root kr d' Hin. apply H. right; exact Hin.
+    + apply IH. intros root kr d' Hin. apply H. right; exact Hin.
+  - apply IH. intros root kr d' Hin. apply H. right; exact Hin.
+Qed.
+
+Lemma gen_loop_lex r s teq flat : forall l acc m,
+  gen_loop r s teq flat l acc = Ok m ->
+  forall id t ir, In (id, t) l -> eligible s t = true ->
+    create_type_ir r s t flat = Ok (Some ir) -> forallb ident_lexb (namespace (t_path t)) = true.
+Proof.
+  induction l as [|[id0 t0] l IH]; intros acc m H id t ir Hin He Hc; [destruct Hin|].
+  rewrite gen_loop_cons in H. destruct Hin as [Heq|Hin].
+  - inversion Heq; subst id0 t0. unfold eligible in He.
+    apply andb_true_iff in He as [He1 He2]. apply negb_true_iff in He1. rewrite He1 in H.
+    destruct (namespace (t_path t)) as [|n0 ns]; [discriminate|].
+    rewrite Hc in H. cbn [bind] in H.
+    destruct (forallb ident_lexb (n0 :: ns)); [reflexivity|discriminate].
+  - destruct (subs_contains (s_subs s) (t_path t0)); [eapply IH; eauto|].
+    destruct (namespace (t_path t0)) as [|n0 ns]; [eapply IH; eauto|].
+    destruct (create_type_ir r s t0 flat) as [[ir0|]|e|msg]; cbn [bind] in H; try discriminate;
+      [|eapply IH; eauto].
+    destruct (forallb ident_lexb (n0 :: ns)); [|discriminate].
+    destruct (items_get acc (t_path t0)) as [[other ir']|].
+    + destruct (teq id0 other) as [[|]|e|msg]; cbn [bind] in H; try discriminate. eapply IH; eauto.
+    + eapply IH; eauto.
+Qed.
+
+Lemma gen_loop_permissive rr s flat : forall l acc,
+  (forall id t, In (id, t) l -> eligible s t = true ->
+     exists o, create_type_ir rr s t flat = Ok o /\
+               (forall ir, o = Some ir -> forallb ident_lexb (namespace (t_path t)) = true)) ->
+  exists m, gen_loop rr s teq_true flat l acc = Ok m.
+Proof.
+  induction l as [|[id t] l IH]; intros acc H; [cbn; eauto|].
+  assert (Hl : forall id0 t0, In (id0, t0) l -> eligible s t0 = true ->
+             exists o, create_type_ir rr s t0 flat = Ok o /\
+                       (forall ir, o = Some ir -> forallb ident_lexb (namespace (t_path t0)) = true)).
+  { intros id0 t0 Hin. apply (H id0 t0). right; exact Hin. }
+  rewrite gen_loop_cons.
+  destruct (subs_contains (s_subs s) (t_path t)) eqn:Es; [apply IH; exact Hl|].
+  destruct (namespace (t_path t)) as [|n0 ns] eqn:En; [apply IH; exact Hl|].
+  destruct (H id t (or_introl eq_refl)) as (o & Ho & Hlex).
+  { unfold eligible. rewrite Es, En. reflexivity. }
+  rewrite Ho. cbn [bind]. destruct o as [ir|]; [|apply IH; exact Hl].
+  rewrite En in Hlex. rewrite (Hlex ir eq_refl).
+  destruct (items_get acc (t_path t)) as [[other ir']|]; [|apply IH; exact Hl].
+  unfold teq_true at 1. cbn [bind]. apply IH; exact Hl.
+Qed.
+
+Section OkTransfer.
+  Variable pi : N -> N.
+  Variable r : registry.
+  Variable s : settings.
+  Hypothesis Hpi : renumbering (N.of_nat (List.length r)) pi.
+  Let r' := renumber pi r.
+
+  Lemma flatten_key_rename e y :
+    flatten_key e = Ok y -> flatten_key (rename_entry pi e) = Ok (pi (fst y), snd y).
+  Proof.
+    destruct e as [id t]. unfold rename_entry, flatten_key. cbn [fst snd].
+    change (t_path (rename_ty pi t)) with (t_path t). destruct (t_path t) as [|a p].
+    - intros H; inversion H; reflexivity.
+    - intros H. apply bind_ok in H as (k & Hk & H). rewrite Hk. cbn [bind]. inversion H; reflexivity.
+  Qed.
+
+  Lemma flatten_ok_renumber flat :
+    ids_consistent r = true -> flatten (s_dreg s) r = Ok flat ->
+    exists flat', flatten (s_dreg s) r' = Ok flat'.
+  Proof.
+    intros Hc Hf. rewrite flatten_eq in Hf |- *.
+    destruct (dr_recursive (s_dreg s)) as [|x0 rec0] eqn:Erec; [eauto|].
+    apply bind_ok in Hf as (keys & Hkeys & Hf). apply bind_ok in Hf as (acc & Hacc & _).
+    destruct (mapM_total flatten_key (fun _ => True) r') as (keys' & Hkeys' & _).
+    { intros e' He'. apply (in_renumber pi r _ Hpi) in He' as (e & He & ->).
+      destruct (mapM_ok_each _ _ _ Hkeys e He) as (y & Hy).
+      rewrite (flatten_key_rename _ _ Hy). eauto. }
+    rewrite Hkeys'. cbn [bind].
+    pose proof (flatten_keys_eq _ _ Hkeys) as Ek. pose proof (flatten_keys_eq _ _ Hkeys') as Ek'.
+    destruct (flatten_go_ok (s_dreg s) r' keys' []) as (acc' & Hacc').
+    { intros root' kr d Hin Hd. subst keys'. apply in_map_iff in Hin as ([root0 troot'] & E & Hin).
+      cbn [fst snd] in E. inversion E; subst root0; clear E.
+      apply (in_renumber pi r _ Hpi) in Hin as ([root troot] & Hin & E).
+      unfold rename_entry in E. cbn [fst snd] in E. inversion E; subst root' troot'; clear E.
+      change (key_opt (rename_ty pi troot)) with (key_opt troot) in H1.
+      destruct (flatten_go_roots _ _ _ _ _ Hacc root kr d) as (ids & Hids); [|exact Hd|].
+      - subst keys. apply in_map_iff. exists (root, troot). cbn [fst snd]. split; [rewrite H1; reflexivity|exact Hin].
+      - exists (map pi ids). unfold r'. rewrite (collect_type_ids_renumber pi r Hpi), Hids. reflexivity. }
+    rewrite Hacc'. cbn [bind]. eauto.
+  Qed.
+
+  Theorem generate_ok_renumber teq m :
+    generate r s teq = Ok m -> exists m2, generate r' s teq_true = Ok m2.
+  Proof.
+    intros G.
+    assert (Hc : ids_consistent r = true).
+    { apply first_bad_none_iff. eapply generate_sanity; exact G. }
+    pose proof (renumber_ids_consistent pi r Hpi Hc) as Hc'. fold r' in Hc'.
+    pose proof G as H. unfold generate in H.
+    apply bind_ok in H as (u & _ & H). apply bind_ok in H as (flat1 & Hf1 & H).
+    destruct (flatten_ok_renumber flat1 Hc Hf1) as (flat2 & Hf2).
+    unfold generate. rewrite sanity_pass_spec. apply first_bad_none_iff in Hc'. rewrite Hc'. cbn [bind].
+    rewrite Hf2. cbn [bind].
+    apply gen_loop_permissive. intros id' t' Hin' Hel'.
+    apply (in_renumber pi r _ Hpi) in Hin' as ([id t] & Hin & E).
+    unfold rename_entry in E. cbn [fst snd] in E. inversion E; subst id' t'; clear E.
+    change (eligible s (rename_ty pi t)) with (eligible s t) in Hel'.
+    change (t_path (rename_ty pi t)) with (t_path t).
+    unfold r'. rewrite (create_type_ir_renumber pi r s Hpi).
+    destruct (is_composite_or_variant (t_def t)) eqn:Ecv.
+    - assert (Hie : item_eligible s t = true).
+      { unfold item_eligible. rewrite Ecv. unfold eligible in Hel'.
+        apply andb_prop in Hel' as [A B]. rewrite A, B. reflexivity. }
+      destruct (gen_loop_all_ok r s teq flat1 r [] m H id t Hin Hie) as (ir1 & C1).
+      destruct (create_type_ir_flat r s t flat1 flat2 ir1 C1) as (ir2 & C2 & _).
+      rewrite C2. cbn [rmap_e option_map]. eexists. split; [reflexivity|].
+      intros ir _. exact (gen_loop_lex r s teq flat1 r [] m H id t ir1 Hin Hel' C1).
+    - rewrite (create_type_ir_not_cv r s t flat2 Ecv). cbn [rmap_e option_map].
+      eexists. split; [reflexivity|]. intros ir E. discriminate E.
+  Qed.
+End OkTransfer.
+
 (** ** restriction = renumbering + prefix *)
-Theorem restriction_tokens pi k r s teq teq2 teq' m m2 m' :
+Theorem restriction_tokens pi k r s teq teq' m m' :
   renumbering (N.of_nat (List.length r)) pi ->
   skeleton_consistent r s -> docs_consistent r s -> derives_functional s ->
   no_outside_roots (dr_recursive (s_dreg s)) (dropped pi k r) ->
   generate r s teq = Ok m ->
-  generate (renumber pi r) s teq2 = Ok m2 ->
   generate (restrict pi k r) s teq' = Ok m' ->
   forall p id' ir', items_get m' p = Some (id', ir') ->
     exists id ir, items_get m p = Some (id, ir) /\ type_ir_tokens s ir' = type_ir_tokens s ir.
 Proof.
-  intros Hpi Hsk Hdc Hdf Hout G G2 G' p id' ir' E'.
+  intros Hpi Hsk Hdc Hdf Hout G G' p id' ir' E'.
+  destruct (generate_ok_renumber pi r s Hpi teq m G) as (m2 & G2).
   assert (Esplit : renumber pi r = restrict pi k r ++ dropped pi k r).
   { unfold restrict, dropped. symmetry. apply firstn_skipn. }
   rewrite Esplit in G2.
-  destruct (prefix_tokens _ _ s teq' teq2 m' m2 Hdf Hout G' G2 p id' ir' E') as (ir2 & E2 & T2).
+  destruct (prefix_tokens _ _ s teq' teq_true m' m2 Hdf Hout G' G2 p id' ir' E') as (ir2 & E2 & T2).
   rewrite <- Esplit in G2.
-  destruct (permutation_items pi r s Hpi teq teq2 m m2 Hsk Hdc Hdf G G2) as [_ K'].
+  destruct (permutation_items pi r s Hpi teq teq_true m m2 Hsk Hdc Hdf G G2) as [K K'].
   destruct (K' p id' ir2 E2) as ([id ir] & E).
-  destruct (permutation_items pi r s Hpi teq teq2 m m2 Hsk Hdc Hdf G G2) as [K _].
   destruct (K p id ir E) as (id2 & ir2' & E2' & T).
   assert (ir2' = ir2) by congruence. subst ir2'.
   exists id, ir. split; [exact E|]. congruence.
+Qed.
+
+(** boolean form of [no_outside_roots] *)
+Definition no_outside_rootsb (rec : kmap) (r2 : registry) : bool :=
+  forallb (fun e => match key_opt (snd e) with
+                    | Some k => match kmap_get rec k with None => true | Some _ => false end
+                    | None => true
+                    end) r2.
+
+Lemma no_outside_rootsb_sound rec r2 : no_outside_rootsb rec r2 = true -> no_outside_roots rec r2.
+Proof.
+  unfold no_outside_rootsb, no_outside_roots. rewrite forallb_forall. intros H id t k Hin Hk.
+  specialize (H (id, t) Hin). cbn [snd] in H. rewrite Hk in H.
+  destruct (kmap_get rec k); [discriminate|reflexivity].
+Qed.
+
+Theorem restriction_tokens_b pi k r s teq teq' m m' :
+  renumbering (N.of_nat (List.length r)) pi ->
+  skeleton_consistentb r s = true -> docs_consistentb r s = true -> derives_functionalb s = true ->
+  no_outside_rootsb (dr_recursive (s_dreg s)) (dropped pi k r) = true ->
+  generate r s teq = Ok m ->
+  generate (restrict pi k r) s teq' = Ok m' ->
+  forall p id' ir', items_get m' p = Some (id', ir') ->
+    exists id ir, items_get m p = Some (id, ir) /\ type_ir_tokens s ir' = type_ir_tokens s ir.
+Proof.
+  intros Hpi H1 H2 H3 H4. apply restriction_tokens; auto.
+  - apply ShapeBool.skeleton_consistentb_sound; exact H1.
+  - apply docs_consistentb_sound; exact H2.
+  - apply derives_functionalb_sound; exact H3.
+  - apply no_outside_rootsb_sound; exact H4.
 Qed.
